@@ -113,6 +113,7 @@ func Start(prop string) *Run {
 		}
 	}
 	go r.watchdog()
+	go r.deadlockWatch()
 	return r
 }
 
@@ -145,6 +146,118 @@ func (r *Run) watchdog() {
 			os.Exit(1)
 		}
 	}
+}
+
+// deadlockWatch decides "blocked forever". A call that deadlocks burns no CPU, so the CPU-time watchdog never fires.
+// Time only triggers the inspection; the verdict is a state predicate: the process has consumed (almost) no CPU for ten
+// seconds AND every goroutine other than the two watchdogs is parked on a channel operation, a select, a lock, a
+// WaitGroup or a condition variable - nothing is runnable, sleeping on a timer or waiting for I/O, so nothing is left
+// that could ever wake them - AND a second look two seconds later shows exactly the same picture. The frame that
+// blocks decides whose deadlock it is (repository frame: violation; only harness frames: harness failure).
+func (r *Run) deadlockWatch() {
+	lastCPU := cpuTime()
+	idle, lastSig := 0, ""
+	for {
+		time.Sleep(time.Second)
+		cpu := cpuTime()
+		busy := cpu-lastCPU > 20*time.Millisecond
+		lastCPU = cpu
+		if busy {
+			idle, lastSig = 0, ""
+			continue
+		}
+		idle++
+		if idle < 10 {
+			continue
+		}
+		sig, allBlocked, origin, dump := goroutinePicture()
+		if !allBlocked {
+			idle, lastSig = 5, ""
+			continue
+		}
+		if sig != lastSig {
+			lastSig, idle = sig, 8
+			continue
+		}
+		id := "(outside a monitored call)"
+		var input []byte
+		if c := r.cur.Load(); c != nil {
+			id, input = c.id, c.input
+		}
+		if origin == "" {
+			r.HarnessFail("harness deadlock: every goroutine is blocked and none of the blocking frames belongs to the repository (%s)\n%s", id, trimStack(dump))
+		} else {
+			r.Violation("deadlock:"+origin, fmt.Sprintf("%s never returns: every goroutine of the process is blocked on a channel / lock / WaitGroup and nothing is left to wake them (case %s, input %d bytes)", origin, id, len(input)),
+				map[string]any{"case": id, "input_hex": hexCap(input), "kind": "non-termination (deadlock)", "goroutines": trimStack(dump)})
+			r.Eval("DEADLOCK")
+		}
+		r.note("aborted_by_deadlock_watch", id)
+		r.Finish()
+		os.Exit(1)
+	}
+}
+
+var parkedStates = map[string]bool{"chan send": true, "chan receive": true, "select": true, "select (no cases)": true, "semacquire": true,
+	"sync.Mutex.Lock": true, "sync.RWMutex.Lock": true, "sync.RWMutex.RLock": true, "sync.WaitGroup.Wait": true, "sync.Cond.Wait": true,
+	"chan send (nil chan)": true, "chan receive (nil chan)": true}
+
+// goroutinePicture summarises runtime.Stack(all): a signature of (goroutine, state, top frame), whether every goroutine
+// but the watchdogs is parked on a synchronisation primitive, and the first repository function some parked goroutine is
+// blocked in ("" if only harness / standard-library frames are involved).
+func goroutinePicture() (sig string, allBlocked bool, origin string, dump string) {
+	buf := make([]byte, 4<<20)
+	buf = buf[:runtime.Stack(buf, true)]
+	dump = string(buf)
+	goroot := runtime.GOROOT()
+	allBlocked = true
+	n := 0
+	for _, blk := range strings.Split(dump, "\n\n") {
+		lines := strings.Split(strings.TrimSpace(blk), "\n")
+		if len(lines) < 2 || !strings.HasPrefix(lines[0], "goroutine ") {
+			continue
+		}
+		if strings.Contains(blk, "mon.(*Run).deadlockWatch") || strings.Contains(blk, "mon.(*Run).watchdog") {
+			continue
+		}
+		n++
+		hdr := lines[0]
+		state := ""
+		if i, j := strings.Index(hdr, "["), strings.LastIndex(hdr, "]"); i >= 0 && j > i {
+			state = hdr[i+1 : j]
+			if k := strings.Index(state, ","); k >= 0 {
+				state = state[:k]
+			}
+		}
+		if !parkedStates[state] {
+			allBlocked = false
+		}
+		sig += hdr[:strings.Index(hdr, "[")+1] + state + "]" + lines[1] + ";"
+		// first frame that is not standard library
+		for i := 1; i+1 < len(lines); i += 2 {
+			f := strings.TrimSpace(lines[i+1])
+			if k := strings.LastIndex(f, ":"); k > 0 {
+				f = f[:k]
+			}
+			if strings.HasPrefix(lines[i], "created by ") || (goroot != "" && strings.HasPrefix(f, goroot)) || strings.Contains(f, "/src/runtime/") {
+				continue
+			}
+			if strings.Contains(f, "/harness/") || strings.Contains(f, "/zz_verif/") {
+				break
+			}
+			if origin == "" {
+				name := lines[i]
+				if k := strings.LastIndex(name, "("); k > 0 {
+					name = name[:k]
+				}
+				origin = name
+			}
+			break
+		}
+	}
+	if n == 0 {
+		allBlocked = false
+	}
+	return
 }
 
 func hexCap(b []byte) string {
